@@ -26,6 +26,8 @@ extern int g_a, g_b, g_c, g_d;
 /* ghost abbreviations: constrained in requires to equal a (quantified) predicate of the pre-state, so the
  * quantifier is expanded once instead of in every clause that mentions it */
 extern int g_p0, g_p1, g_p2, g_p3;
+/* a ghost VALUE: "for every double g_v ..." */
+extern double g_v;
 
 /* ---- ghost allocation ledger (USER_MALLOC/USER_FREE are mapped onto these) ---------------- */
 extern long g_live;                 /* library-owned live heap blocks */
